@@ -6,7 +6,8 @@ Err/Break edge of a Result it looked at, or that stores an error into the return
 not successful). A `for` loop over the AIR's statements whose every iteration passes a stage
 contributes that stage on its exit edge too (zero statements -> vacuously all emitted).
 """
-from .facts import callee_of
+import re
+from .facts import callee_of, expr_walk
 from . import kit
 
 STAGES = {
@@ -19,12 +20,32 @@ ALL = frozenset(STAGES.values())
 EMPTY = frozenset()
 
 
-def _is_asmline_next(t):
+_WHOLE_ADAPTERS = {"Rev", "Enumerate", "Peekable", "Cloned", "Copied", "Map", "Fuse", "Inspect"}
+
+
+def _is_asmline_next(t, fn=None):
+    """`next()` on an iterator that visits *every* statement: a slice/Vec iterator over AsmLine, possibly under
+    element-preserving adapters. Filter/Skip/Take/StepBy/... visit a subset and do not count; neither does an
+    iterator made from a sub-slice."""
     c = callee_of(t) or ""
     if not c.endswith("::next"):
         return False
     tys = t.get("arg_tys") or [""]
-    return "AsmLine" in tys[0]
+    ty = tys[0]
+    if "AsmLine" not in ty:
+        return False
+    if not re.search(r"(slice::iter::Iter(Mut)?|vec::into_iter::IntoIter)<", ty):
+        return False
+    if any(a not in _WHOLE_ADAPTERS for a in re.findall(r"iter::adapters::\w+::(\w+)", ty)):
+        return False
+    if fn is not None:
+        e = fn.expr(t["args"][0], 10)
+        for x in expr_walk(e):
+            if x[0] == "call" and re.search(r"(::index|::index_mut|::get|::get_mut|::split_at|::split_first|::split_last|::skip|::take|::filter|::step_by)$", str(x[1])):
+                return False
+            if x[0] == "agg" and "ops::range::Range" in str(x[1]):
+                return False
+    return True
 
 
 class StageAnalysis:
@@ -75,7 +96,7 @@ class StageAnalysis:
         forall = {}
         for h, (body, latches) in lps.items():
             t = fn.term(h)
-            if t["k"] == "call" and _is_asmline_next(t):
+            if t["k"] == "call" and _is_asmline_next(t, fn):
                 forall[h] = (body, latches)
         must_iter = {}
 
